@@ -558,6 +558,24 @@ def corruption_stream(rng: random.Random, tier: str, w: Work, scale: float = 1.0
     ngen = max(3, int((12 if tier == "quick" else 120) * scale))
     for i, (s, data) in enumerate(small_sprites(rng, ngen, max_canvas=5, max_layers=4, max_frames=3)):
         bases.append(("gen%d" % i, data))
+    # probe sprites: every name a long run of multi-byte characters behind 20..26 ASCII bytes, every reserved / unused byte run starting with
+    # a boundary pattern, an ignorable chunk of 0..5 bytes in every gap - so that each single-field corruption below (an unknown blend mode,
+    # layer type, cel type, ...) meets those surroundings, deterministically
+    for k, pat in enumerate([b"\xff\x7f", b"\x00\x80", b"\xff\xff\xff\xff", b"\x04\x00"][: (2 if tier == "quick" and scale < 1 else 4)]):
+        for _try in range(50):
+            s0 = gen.gen_sprite(rng, max_canvas=4, max_layers=4, max_frames=2)
+            if len(s0["layers"]) >= 2 and sum(1 for (f_, l_) in s0["cels"] if f_ == 0) >= 2:
+                break
+        awkward = lambda j: "n" * (20 + (j + k) % 7) + "\u00e4\u65e5\U0001f600" * 12
+        for j, lay in enumerate(s0["layers"]):
+            lay["name"] = awkward(j)
+        for j, t in enumerate(s0["tags"]):
+            t["name"] = awkward(j + 3)
+        for j, sl in enumerate(s0["slices"]):
+            sl["name"] = awkward(j + 5)
+        ch = gen.random_choices(rng)
+        ch.update({"unused": True, "junk_pattern": pat, "ignorable": 1.0, "ign_sizes": [0, 1, 2, 3, 4, 5], "tails": 0.5, "count_mode": "both", "shuffle_cels": False})
+        bases.append(("probe%d" % k, gen.encode(s0, ch, rng)))
     cf = small_corpus(4096 if tier == "quick" else 40000)
     if tier == "quick":
         cf = cf[:max(2, int(8 * scale))]
@@ -1233,6 +1251,18 @@ def check_C02(tier, seed):
             out.append((s, gen.encode(s, None, rng)))
         for s in big_canvas_sprites(rng):
             out.append((s, gen.encode(s, None, rng)))
+        # cels of more than 65536 pixels (300 x 220, 257 x 256) placed so that only their LAST rows and columns lie on the small canvas: the
+        # pixels drawn have source indices beyond 65535
+        for (cw, chh), kind in (((300, 220), "raw"), ((257, 256), "zlib"), ((220, 300), "zlib")):
+            px = [((x * 3 + y) & 255, (y * 5 + x) & 255, (x ^ y) & 255, 255 if (x + y) % 5 else 140) for y in range(chh) for x in range(cw)]
+            big = {"width": 6, "height": 5, "depth": 32, "transparent": 0, "durations": [100], "speed": 100, "palette_chunks": [], "palette": None,
+                   "sprite_ud": None, "ext_files": [], "tilesets": [],
+                   "layers": [{"flags": 1, "ltype": 0, "level": 0, "blend": b_, "opacity": 255, "name": "L%d" % i, "tileset": 0, "ud": None, "default_w": 0, "default_h": 0}
+                              for i, b_ in enumerate((0, rng.randrange(19)))],
+                   "cels": {(0, 0): {"kind": "raw", "x": 0, "y": 0, "w": 6, "h": 5, "opacity": 255, "pixels": [(9, 9, 9, 255)] * 30, "ud": None},
+                            (0, 1): {"kind": kind, "x": 6 - cw + 1, "y": 5 - chh + 1, "w": cw, "h": chh, "opacity": rng.choice([255, 180]), "pixels": px, "ud": None}},
+                   "tags": [], "has_tags_chunk": False, "slices": []}
+            out.append((big, gen.encode(big, None, rng)))
         for g in range(16 if tier == "quick" else 96):
             s = covering_sprite(g, rng)
             out.append((s, gen.encode(s, None, rng)))
